@@ -18,8 +18,9 @@ PROPERTY_ID = "C38"
 LEVEL = "exploration"
 RULE = (
     "A case is a token list rendered to a marble string: runs of '-', values (single letters, words, letter+digits, "
-    "ints with leading zeros, decimal and exponent floats), '|', '#', comma-separated groups '(a,12,|)' of 1-4 "
-    "values/terminals, never two plain values adjacent, spaces inserted at arbitrary positions; plus timespan "
+    "ints with leading zeros, decimal and exponent floats), '|', '#', comma-separated groups '(a,12,|)' of 0-4 "
+    "values/terminals (the empty group '()' holds no marble but its two characters advance time like any other; "
+    "whether '()' after a terminal is rejected under raise_stopped is left open by the statement, both accepted), never two plain values adjacent, spaces inserted at arbitrary positions; plus timespan "
     "(default, int, dyadic float, timedelta, non-dyadic 0.1/0.3; for delivery also hours or a day per frame, so that "
     "timelines run past the first day of the virtual clock), time shift (default, int, dyadic float, "
     "timedelta), a lookup dict keyed by the parsed values of some marbles (str/int/float keys) and by absent keys, "
@@ -44,7 +45,8 @@ RULE = (
 ASSUMPTIONS = [
     "documented syntax = docstrings of parse/from_marbles/hot/marbles_testing plus tests/test_observable/test_marbles.py: "
     "groups are comma separated, spaces are removed before anything else (so they may split a value), numbers are cast with int() then float()",
-    "not generated (undocumented): empty groups/elements, '-' or parentheses inside a group, unbalanced parentheses, commas outside groups, "
+    "the empty group '()' is inside the documented syntax: '(' opens and ')' closes a group of elements, every character except a space advances time by one timespan",
+    "not generated (undocumented): empty elements inside a non-empty group ('(a,)', '(,)'), '-' or parentheses inside a group, unbalanced parentheses, commas outside groups, "
     "words that float() accepts (nan/inf/infinity), digit-leading alphanumerics other than decimal/exponent floats, underscores, non-ASCII",
     "from_marbles/hot are always given the virtual scheduler (their default is a NewThreadScheduler)",
     "marbles_testing's exp() is only judged with whole-tick timespans (it truncates times with int(), and exp is not named by the statement); cold/hot/start are judged with fractional timespans too",
@@ -121,6 +123,21 @@ def expected(toks):
             marble(t, pos)
             pos += len(_tok_text(t))
     return out, after
+
+
+def empty_group_after_terminal(toks):
+    """An empty group '()' written after a terminal contains no marble. The statement only says that *marbles* after a
+    terminal are rejected when asked, so whether such a diagram is rejected is left open: both outcomes are accepted."""
+    stopped = False
+    for t in toks:
+        if t[0] == "g":
+            if not t[1] and stopped:
+                return True
+            if any(e[0] in "|#" for e in t[1]):
+                stopped = True
+        elif t[0] in "|#":
+            stopped = True
+    return False
 
 
 def nontrivial(toks):
@@ -246,6 +263,8 @@ def _run_parse_on(s, toks, case, cls):
     except ValueError as e:
         if want_error:
             return OK(nontrivial(toks), cls + ["ValueError-expected"])
+        if rs and empty_group_after_terminal(toks):
+            return OK(nontrivial(toks), cls + ["empty-group-after-terminal:rejected(open-in-statement)"])
         return FAIL("unexpected-ValueError|parse", f"parse({s!r}, {kw}) raised ValueError({e}); case={case}", classes=cls)
     if want_error:
         return FAIL("no-ValueError|parse", f"parse({s!r}, raise_stopped=True) accepted a marble after a terminal: {got}; case={case}", classes=cls)
@@ -271,6 +290,11 @@ def _shape_classes(toks, spaces):
         cls.append("float-value")
     if spaces:
         cls.append("has-spaces")
+    if any(t[0] == "g" and not t[1] for t in toks):
+        cls.append("empty-group")
+        k = max(i for i, t in enumerate(toks) if t[0] == "g" and not t[1])
+        if any(t[0] != "-" and not (t[0] == "g" and not t[1]) for t in toks[k + 1 :]):
+            cls.append("marble-after-empty-group")
     if not toks:
         cls.append("empty-diagram")
     return cls
@@ -379,6 +403,8 @@ def _run_deliver(case):
             return FAIL(f"no-ValueError|{api}", f"{api}({s!r}) accepted a marble after a terminal; case={case}", classes=cls)
         return OK(nontrivial(toks), cls + ["ValueError-expected"])
     if state["raised"] is not None:
+        if empty_group_after_terminal(toks):
+            return OK(nontrivial(toks), cls + ["empty-group-after-terminal:rejected(open-in-statement)"])
         return FAIL(f"unexpected-ValueError|{api}", f"{api}({s!r}) raised {state['raised']}; case={case}", classes=cls)
     if len(probes) > 1:
         cls.append("second-subscriber")
@@ -429,6 +455,8 @@ def _run_ctx(case, s, toks, msgs, after, lookup, err, err_tag, cls):
                 if bad:
                     return FAIL(f"{bad[0]}|exp", f"{bad[1]}; case={case}", classes=cls)
                 return OK(nontrivial(toks), cls + ["ValueError-expected"])
+            if empty_group_after_terminal(toks):
+                return OK(nontrivial(toks), cls + ["empty-group-after-terminal:rejected(open-in-statement)"])
             return FAIL(f"unexpected-ValueError|{api}", f"{api}({s!r}) raised {e}; case={case}", classes=cls)
         if after:
             return FAIL(f"no-ValueError|{api}", f"{api}({s!r}) accepted a marble after a terminal; case={case}", classes=cls)
@@ -492,7 +520,7 @@ def scan(s):
             if j < 0:
                 return None, "unbalanced"
             els = []
-            for el in s[i + 1 : j].split(","):
+            for el in s[i + 1 : j].split(",") if j > i + 1 else []:  # '()' is a group without elements
                 if el in ("|", "#"):
                     els.append([el])
                 else:
@@ -522,7 +550,7 @@ _LITERAL = set("abcdefghijklmnopqrstuvwxyzABCDEFGHIJKLMNOPQRSTUVWXYZ0123456789-|
 # bytes that are not marble characters decode to whole fragments, so that random byte strings are mostly inside the
 # documented language while a seed made of marble characters still decodes to itself
 _FRAGMENTS = ["-", "--", "---", "-", "--", "|", "#", "a", "b", "ab", "cd", "12", "7", "1.5", "x1", "(a,b)", "(ab,12)", "(1,|)", "(a,#)",
-              "(|)", "(x)", "(a,b,c)", " ", "-", "--", "(1.5,a)", "0", "-a-", "-b", "-1-", "(12,3,4)", "-----", "2e3", "(b,|)", "  "]
+              "(|)", "(x)", "(a,b,c)", " ", "()", "()-", "-", "--", "(1.5,a)", "0", "-a-", "-b", "-1-", "(12,3,4)", "-----", "2e3", "(b,|)", "  "]
 _CH = [chr(b) if chr(b) in _LITERAL else _FRAGMENTS[b % len(_FRAGMENTS)] for b in range(256)]
 _RAW_TS = [None, ["n", 1], ["n", 2], ["n", 0.5], ["n", 0.25], ["td", 500000], ["x", "0.1"], ["n", 10]]
 _RAW_SH = [None, ["n", 0], ["n", 1], ["n", 200], ["n", 0.5], ["td", 250000], ["n", 10.0], ["n", 3]]
@@ -596,7 +624,12 @@ _value = st.one_of(
     st.builds(lambda i, e: ["v", f"{i}e{e}", "f"], st.integers(1, 99), st.integers(0, 5)),
 )
 _terminal = st.sampled_from([["|"], ["|"], ["#"]])
-_group = st.lists(st.one_of(_value, _value, _value, _terminal), min_size=1, max_size=4).map(lambda els: ["g", els])
+_group = st.one_of(
+    st.lists(st.one_of(_value, _value, _value, _terminal), min_size=1, max_size=4),
+    st.lists(st.one_of(_value, _value, _value, _terminal), min_size=1, max_size=4),
+    st.lists(st.one_of(_value, _value, _value, _terminal), min_size=1, max_size=4),
+    st.just([]),  # '()': an opened and closed group without elements - two characters of time, no marble
+).map(lambda els: ["g", els])
 _dash = st.integers(1, 6).map(lambda n: ["-", n])
 _token = st.one_of(_dash, _dash, _dash, _value, _value, _group, _terminal)
 
